@@ -30,6 +30,10 @@ CHECKS = {
   text='Coq theorems about kernels regenerated from source: TitleVersion and ContentTypeFlags word round trips (all 65 536 words, all in-range triples), SMDH flag and region-lockout bit tables for every 32-bit word (bit reasoning), RGB565->RGB888 for all 65 536 colours, the pixel_offset expression equals Morton 8x8 tiling and is injective for both icon sizes (complete sweeps, bound in the statement), DIFI serialise-then-parse round trip for all field values. The remaining types of the property (AppTitle, whole SMDH images, config save, seed DB, NCSD header, IVFC/DPFS descriptors, LZSS with a reference backward compressor) are decided by direct round-trip oracles on generated values plus exhaustive pixel/colour/word sweeps on the implementation.',
   note='Partial: only the listed kernels have theorems; the other codecs are sampled (oracle). Trusted: Coq kernel (vm_compute for finite sweeps), translator, reference LZSS compressor.',
   technique='Rocq/Coq proofs over regenerated kernels (finite sweeps lifted by forallb_forall, bit lemmas, field-extraction lemmas) + round-trip oracles'),
+ 'C11': dict(
+  text='Coq theorem C11_tamper over an executable model of TitleMetadataReader.load: for two inputs with the same signature type and header that both load with verification on, the info records and every chunk record covered by an info record are identical, or the loads exhibit two different inputs with equal SHA-256 (constructed; no collision-resistance assumption); records are determined by their 48-byte form; version/type word codecs swept completely on regenerated kernels; extracted model (hashlib as SHA-256 oracle) compared with the implementation on valid, corrupted and truncated inputs; parse/serialise round trips and a tamper sweep decided on the implementation against an independent builder.',
+  note='Partial: no Coq theorem for __bytes__ (round trips are oracle-only, sampled; all 65 536 categories in thorough). Tamper theorem assumes both inputs contain all announced chunk records. Trusted: Coq kernel, extraction + driver, hand model Tmd.v (tie 2), translator for the word codecs, builder pack.py.',
+  technique='Rocq/Coq proof with constructed collision witnesses + model/implementation correspondence + round-trip oracle'),
 }
 
 NOT_YET = 'check not built yet in this session (work in progress; see DESIGN.md section 10 order of work)'
